@@ -92,7 +92,7 @@ func Run(c *vf.Check) {
 		}
 	}
 	vf.Parallel(len(jobs), func(i int) { jobs[i]() })
-	c.Finish("engine E: ECIES on {Ed25519, P-256, QR512, bn256.G1, kilic.G1}, IBE CCA on both assignments / CPA on the suites with the needed hash-to-group, anonymous-set encryption on {Ed25519, P-256, bn256.G1}: every message length 0..80 and {127,128,129,255,256,4095,4096} (IBE: every length 0..2*hash size+2) x 4 plaintext patterns; round trip = plaintext, or refusal at encryption; wrong key / identity / recipient index => error (authenticated schemes); one bit per byte of the ciphertext flipped (thorough: every bit for lengths <= 80) and every truncation => error, never a panic, never another plaintext; no aligned 16-byte plaintext window at the same offset of the ciphertext body; anonymous-set: sizes 1..4 x every recipient index. "+
+	c.Finish("engine E: ECIES on {Ed25519, P-256, QR512, bn256.G1, kilic.G1}, IBE CCA on both assignments / CPA on the suites with the needed hash-to-group, anonymous-set encryption on {Ed25519, P-256, bn256.G1}: every message length 0..80 and {127,128,129,255,256,4095,4096} (IBE: every length 0..2*hash size+2) x 4 plaintext patterns; round trip = plaintext, or refusal at encryption; wrong key / identity / recipient index => error (authenticated schemes; IBE-CCA: judged for the empty message - the known finding - and from 8 bytes on, in between the outcome depends on randomness kyber draws itself with probability 2^(-8 len)); one bit per byte of the ciphertext flipped (thorough: every bit for lengths <= 80) and every truncation => error, never a panic, never another plaintext; no aligned 16-byte plaintext window at the same offset of the ciphertext body; anonymous-set: sizes 1..4 x every recipient index. "+
 		"non-trivial = non-empty messages; distinct by (scheme, group, length, pattern, mutation class)",
 		[]string{"ECIES, IBE and anon.Encrypt draw from crypto/rand inside kyber: only verdicts and plaintexts are compared, never ciphertext bytes", "every Decrypt gets its own copy of the ciphertext"}, nil)
 }
@@ -285,12 +285,18 @@ func runIBE(c *vf.Check, ps groups.PS, mode string) {
 							x.Failf(pk+"/plaintext-in-clear", "%s: W equals the plaintext", id)
 						}
 					}
-					// (the empty message carries nothing an identity could be bound to: sigma, V and W are
-					// empty and U is a constant; it decrypts - to the same empty plaintext - under any key)
-					if n > 0 {
+					// The scheme draws sigma with the length of the message, so the identity is bound by 8*len(msg) bits
+					// only: the key of another identity decrypts an n-byte message with probability 2^(-8n). n = 0 is the
+					// deterministic witness of that weakness (its own key below); for 0 < n < 8 the outcome depends on the
+					// randomness kyber draws from crypto/rand and is not judged; from 8 bytes on it must fail.
+					if n == 0 || n >= 8 {
 						guard(x, pk+"/panic", id+" wrong identity", func() {
 							if out, err := dec(privOther, cp()); err == nil {
-								x.Failf(pk+"/wrong-identity-accepted", "%s: the key of another identity decrypts without error (%d bytes)", id, len(out))
+								if n == 0 {
+									x.Failf(pk+"/short-message-not-identity-bound", "%s: the ciphertext of the empty message decrypts without error under the key of another identity (sigma has the length of the message: an n-byte message is bound to its identity by 8n bits only)", id)
+								} else {
+									x.Failf(pk+"/wrong-identity-accepted", "%s: the key of another identity decrypts without error (%d bytes)", id, len(out))
+								}
 							}
 						})
 					}
